@@ -101,6 +101,27 @@ MUTS={
         if value == self._value:
             return
         self._value = value""")),
+ # --- audit 3: A* = the check must be red with a judged replay; H* = harmless (text-conforming) changes: at most no-failing-input-found
+ "C09-A1-unsubscribe-deletes-after-request": ("C09", lambda: (rep(EH, """        # Remove registration before potential device errors
+        del self._subscriptions[sid]
+""", ""), rep(EH, """        response_status, response_headers, _ = await self._requester.async_http_request(
+            "UNSUBSCRIBE", service.event_sub_url, headers
+        )
+""", """        try:
+            response_status, response_headers, _ = await self._requester.async_http_request(
+                "UNSUBSCRIBE", service.event_sub_url, headers
+            )
+        finally:
+            self._subscriptions.pop(sid, None)
+"""))),
+ "C09-A2-timeout-seconds-drops-days": ("C09", lambda: rep(EH, 'str(int(timeout.total_seconds()))', 'str(timeout.seconds)', 2)),
+ "C09-H3-unconfirmed-unsubscribe-returns-sid": ("C09", lambda: rep(EH, """            _LOGGER.debug("Did not receive 200, but %s", response_status)
+            raise UpnpResponseError(status=response_status, headers=response_headers)
+
+        return sid""", """            _LOGGER.debug("Did not receive 200, but %s", response_status)
+
+        return sid""")),
+ "C09-H4-empty-sid-is-missing-sid": ("C09", lambda: rep(EH, 'if "sid" not in response_headers:', 'if not response_headers.get("sid"):')),
  "C11-M1-replay-newest-only": ("C11", lambda: rep(EH, "for item in self._backlog[sid]:", "for item in self._backlog[sid][-1:]:")),
  "C11-M2-delete-before-replay": ("C11", lambda: rep(EH, """            for item in self._backlog[sid]:
                 await self.handle_notify(item[0], item[1])
